@@ -1134,6 +1134,7 @@ class Variable(CanBehaveLikeAVariable[T]):
             or self._is_the_condition_of_its_parent_
         ):
             is_false = not bool(instance)
+        self._is_false_ = is_false
         return OperationResult(values, is_false, self)
 
     @property
